@@ -13,6 +13,7 @@ import os
 
 import vlib
 
+TWINS = {}   # (game, lang) -> {requested raw path: twin record printed by TLC}  (filled by generate)
 MUTATING = ("write", "create_dir", "write_archive", "write_text_archive")
 LIST_OPS = ("list", "subdirectories")
 TYPED_READS = ("read_archive", "read_text_archive", "read_fe9_arc", "read_arc", "read_tpl_textures",
@@ -43,6 +44,10 @@ def generate(ctx, depth, tier=None):
     states = g.tagged("S")
     if len(ev) != 1 or not states:
         raise vlib.ToolError("generator printed %d alphabets and %d states" % (len(ev), len(states)))
+    # "W" lines: the spec's explicit-path twin of every requested path, per game x language pair
+    TWINS.clear()
+    for w in g.tagged("W"):
+        TWINS[(w["game"], w["lang"])] = {bytes(t["raw"]): t for t in w["twins"]}
     return ev[0], states
 
 
@@ -72,10 +77,21 @@ def build_cases(states, events, keep, twins=False, chunk=12, readback=True):
                     t.pop("fix")
     for s in states:
         base = {"game": s["game"], "lang": s["lang"], "layers": s["layers"], "twins": twins}
-        if q:
-            cases.append(dict(base, events=q, fresh=False))
-        for k in range(0, len(m), chunk):
-            cases.append(dict(base, events=m[k:k + chunk], fresh=True))
+        qs, ms = q, m
+        if twins:
+            # the twin path comes from the specification (TLC's "W" line for this game x language), not from mila
+            table = TWINS.get((s["game"], s["lang"]))
+            if table is None:
+                raise vlib.ToolError("generator printed no twin table for %s/%s" % (s["game"], s["lang"]))
+
+            def with_twin(e):
+                t = table[bytes(e["raw"])]
+                return dict(e, twin={"some": t["some"], "p": t["p"], "raw": t["traw"]})
+            qs, ms = [with_twin(e) for e in q], [with_twin(e) for e in m]
+        if qs:
+            cases.append(dict(base, events=qs, fresh=False))
+        for k in range(0, len(ms), chunk):
+            cases.append(dict(base, events=ms[k:k + chunk], fresh=True))
     return cases
 
 
